@@ -553,6 +553,9 @@ func (g *ProgGen) Program() *ast.Program {
 		if g.Chance(35, "relayscenario") {
 			g.relayScenario(0)
 		}
+		if g.Chance(50, "sessionscenario") {
+			g.sessionScenario(0)
+		}
 	}
 	if g.dead {
 		return nil
